@@ -17,9 +17,11 @@ What is *not* here: the 80 dB residual and "no discontinuity in the output" are 
 History.  The model follows /repo: since the `fix:` commits for F13 (`vr_set_io_ratio(r, 0)` cancels a slew in
 progress) and F14 (`lshift` shifts the unsigned representation) the theorems of §3 hold for *every* state — the
 hypothesis "no unfinished slew" of the pinned tree is gone; the pre-repair function and the two witnesses of its
-failure are kept in §3b as a historical record.  F35 (the two cross-faded streams can get out of step: the C assertion
-`odone == odone2` fails) is a defect of the current tree: §7 proves the negation of the alignment statement with a
-concrete witness, which the check replays on the real code.
+failure are kept in §3b as a historical record.  F35 (the two cross-faded streams could get out of step: the C
+assertion `odone == odone2` failed) was found by this model and repaired in /repo (`occupancy0` is re-aligned at an
+up-switch: `alignOcc`); §7 keeps the negation of the alignment statement for the pre-repair loop with its concrete
+witness, shows the same call sequence aligned on the current model (the check replays it on the real code), and
+proves the part of the alignment that the skeleton carries.
 
 Units: `step` counts `2⁻³²` samples of the current stage per (2x-rate) output; `rateIn` (`Vr/Arith.lean`) is the same
 quantity in the stage-independent unit `2⁻³³` input frames per output frame.
@@ -650,53 +652,108 @@ example : Gen.fadeLen = 2 * xfadeLen ∧ Gen.fadeLen % 2 = 0 := by decide
 /-- `Num.exact` is `⌊r·step_mult + ½⌋`: e.g. 3.9 in stage 1 -/
 example : exactStepOf b39 1073741824 = 4187593114 ∧ exactOctave b39 = 1 ∧ exactNumStages b8 = 3 := by decide
 
-/-! ## 7. Fade alignment: the C assertion `odone == odone2` — false in general (F35)
+/-! ## 7. Fade alignment: the C assertion `odone == odone2`
 
 During the cross-fade of a stage switch both streams must deliver the same number of samples per chunk
 (`assert(odone == odone2)`, compiled out with NDEBUG); the model counts the chunks in which they do not (`nmis`).
-The statement "`nmis = 0` for every run from a fresh engine" (the former `Goal_fade_alignment`) is **false**: `len` of both
-streams derives from `occupancy0`, computed once per `vr_process` from the coarsest stage in use *at the start of the
-call*; when one call takes an up-switch to a new coarsest stage, completes its 512-frame fade and then takes a
-down-switch, the new (finer) current stream gets `len = occupancy0 >> sn` while the (coarser) fade-out stream keeps the
-floored `occupancy0 >> (sn+1)`; the finer stream, run first, then delivers pairs the coarser one has no input for.  From
-there the two streams are one sample apart for the rest of the fade and the fade-out clock goes negative.
-`Vr/Fade.lean` proves the alignment where it does hold (`fade_alignment_down_partial`). -/
+
+History (F35, repaired).  `len` of both streams derives from `occupancy0`, computed at the start of `vr_process` from the
+coarsest stage in use *then*; before the repair, when one call took an up-switch to a new coarsest stage, completed its
+512-frame fade and then took a down-switch, the new (finer) current stream got `len = occupancy0 >> sn` while the
+(coarser) fade-out stream kept the floored `occupancy0 >> (sn+1)`; the finer stream, run first, then delivered pairs the
+coarser one had no input for, and the two streams were one sample apart for the rest of the fade (fade-out clock
+negative).  The repair rounds `occupancy0` down to whole samples of the new coarsest stage at every up-switch
+(`alignOcc`).  `Historical.chunkPre35 … runPre35` is the loop as it was; `Historical.pre_fix_fade_alignment_fails` is the
+negation of "`nmis = 0` for every run" on it, with the concrete witness that the check replayed on the real code. -/
 
 /-- max ratio 8; start at 0.25 (up-sampling stage), jump to 6 at once (the engine climbs one octave stage per 512-frame
     fade), 100 frames later slew to 1.0 over 800 frames, then one call of 1400 frames. -/
 def opsF35 : List (Op Nat) :=
   [.ratio b025 0, .proc 800 100, .ratio b6 0, .proc 800 100, .ratio b1 800, .proc 2500 1400]
 
+namespace Historical
+
+/-- one iteration of the `while` loop before the repair of F35: `occupancy0` is a constant of the call -/
+def chunkPre35 (cfg : Cfg ρ) (occ0 : Int) (olen0 : Nat) (l : LoopSt ρ) : LoopSt ρ × Bool :=
+  let a := chunkStart cfg l.st (olen0 - l.od0)
+  let dif := stageDif a.1
+  let sw := doesSwitch a.1
+  let s := if sw then switchStage a.1 dif occ0 else a.1
+  let k := kernels s a.2 (chunkMn l dif) (chunkMx l dif (decide (a.1.cur.sn + dif < a.1.ns)))
+  (chunkFinish l sw (sw && negLeftShift a.1 dif) k, decide ((k.od : Int) = k.olen))
+
+def loopPre35 (cfg : Cfg ρ) (occ0 : Int) (olen0 : Nat) : Nat → LoopSt ρ → LoopSt ρ
+  | 0, l => l
+  | f + 1, l =>
+    if l.od0 < olen0 then
+      let r := chunkPre35 cfg occ0 olen0 l
+      if r.2 then loopPre35 cfg occ0 olen0 f r.1 else r.1
+    else l
+
+def processPre35 (cfg : Cfg ρ) (s : St ρ) (olen0 : Nat) : PRes ρ :=
+  let p := preLoop cfg s olen0
+  let l := loopPre35 cfg p.2 olen0 (olen0 + 1) p.1
+  let s := post l.st l.mn l.mx
+  { st := { s with oocc := s.oocc - ((olen0 : Int) - l.od0) }, od := l.od0, nsw := l.nsw, nmis := l.nmis, nneg := l.nneg,
+    nshl := l.nshl }
+
+def stepOpPre35 (cfg : Cfg ρ) (r : Run ρ) : Op ρ → Run ρ
+  | .ratio x slew => { r with st := setIoRatio cfg r.st x slew }
+  | .proc ilen olen =>
+    let p := processPre35 cfg (input r.st ilen) olen
+    { st := (output p.st olen).1, out := r.out + p.od, nsw := r.nsw + p.nsw, nmis := r.nmis + p.nmis,
+      nneg := r.nneg + p.nneg, nshl := r.nshl + p.nshl }
+  | .flush olen =>
+    let p := processPre35 cfg (flush r.st) olen
+    { st := (output p.st olen).1, out := r.out + p.od, nsw := r.nsw + p.nsw, nmis := r.nmis + p.nmis,
+      nneg := r.nneg + p.nneg, nshl := r.nshl + p.nshl }
+
+def runPre35 (cfg : Cfg ρ) (r : Run ρ) (ops : List (Op ρ)) : Run ρ := ops.foldl (stepOpPre35 cfg) r
+
+def witnessF35Pre : Run Nat := runPre35 wcfg { st := init wcfg b8 } opsF35
+
+set_option maxRecDepth 100000 in
+/-- **F35 (historical; the loop before the repair).**  In the last call (three stage switches: up, up, down) one chunk
+    has `odone ≠ odone2`; afterwards the fade-out stream's clock is negative.  Every call before it is aligned. -/
+theorem pre_fix_fade_alignment_fails :
+    witnessF35Pre.nmis = 1 ∧ witnessF35Pre.nsw = 3 ∧ witnessF35Pre.st.fo.clk < 0 ∧ witnessF35Pre.st.fade ≠ 0 ∧
+    (runPre35 wcfg { st := init wcfg b8 } opsF35.dropLast).nmis = 0 ∧
+    (runPre35 wcfg { st := init wcfg b8 } opsF35.dropLast).nneg = 0 := by
+  decide +kernel
+
+/-- on the pre-repair loop the universally quantified alignment statement was false -/
+theorem pre_fix_not_fade_alignment_for_all_runs :
+    ¬ ∀ (mx : Nat) (ops : List (Op Nat)), (runPre35 wcfg { st := init wcfg mx } ops).nmis = 0 := by
+  intro h
+  have h1 := h b8 opsF35
+  have h2 : witnessF35Pre.nmis = 1 := pre_fix_fade_alignment_fails.1
+  unfold witnessF35Pre at h2
+  omega
+
+end Historical
+
 def witnessF35 : Run Nat := run wcfg { st := init wcfg b8 } opsF35
 
 set_option maxRecDepth 100000 in
-/-- **Negation of fade alignment (F35), concrete.**  In the last call (three stage switches: up, up, down) one chunk
-    has `odone ≠ odone2`; afterwards the fade-out stream's clock is negative.  No request is outstanding before that
-    call except the slew it was asked for; every call before it is aligned. -/
-theorem fade_alignment_fails :
-    witnessF35.nmis = 1 ∧ witnessF35.nsw = 3 ∧ witnessF35.st.fo.clk < 0 ∧ witnessF35.st.fade ≠ 0 ∧
-    (run wcfg { st := init wcfg b8 } opsF35.dropLast).nmis = 0 ∧
-    (run wcfg { st := init wcfg b8 } opsF35.dropLast).nneg = 0 := by
+/-- **The F35 call sequence on the current code**: the same three stage switches, no misaligned chunk, no negative
+    clock, and after the call the two streams of the fade in progress are exact doubles (clock, `step`, `len`).
+    (The check replays exactly this on the real code: the asserts-on build must run through.) -/
+theorem witnessF35_aligned :
+    witnessF35.nmis = 0 ∧ witnessF35.nsw = 3 ∧ witnessF35.nneg = 0 ∧ witnessF35.st.fade ≠ 0 ∧
+    witnessF35.st.cur.clk = 2 * witnessF35.st.fo.clk ∧ witnessF35.st.cur.step = 2 * witnessF35.st.fo.step ∧
+    witnessF35.st.cur.len = 2 * witnessF35.st.fo.len := by
   decide +kernel
-
-/-- the universally quantified statement (formerly `Goal_fade_alignment`) is false -/
-theorem not_fade_alignment_for_all_runs :
-    ¬ ∀ (mx : Nat) (ops : List (Op Nat)), (run wcfg { st := init wcfg mx } ops).nmis = 0 := by
-  intro h
-  have h1 := h b8 opsF35
-  have h2 : witnessF35.nmis = 1 := fade_alignment_fails.1
-  unfold witnessF35 at h2
-  omega
 
 /-- **Fade alignment, the part that holds** (down-switch fades).  A switch to the next finer stage from a
     down-sampling stage `sn ≥ 1` whose `len` came from an `occupancy0` that is a whole number of its samples makes the
     new current stream the old one exactly doubled (clock, `step`, `step_step`, `len`); in a chunk of such a fade both
     streams deliver the same number of samples (`odone == odone2`: no mismatch counted) and remain exactly doubled — so
     by induction the assertion holds in every chunk of the fade until something re-rounds one stream (the snap, a new
-    request) or recomputes `len` from a misaligned `occupancy0`.  What is missing for all runs: (1) `2^sn ∣ occupancy0`
-    fails after an up-switch earlier in the same call — F35, `fade_alignment_fails`; (2) up-switch fades and fades
-    with the up-sampling stage −1, where the rescaling floors and the streams are equal only to within one unit of
-    `2⁻³²`; (3) the snap and requests during a fade, which round each stream's `step` separately. -/
+    request).  The hypothesis `2^sn ∣ occupancy0` is what failed before the repair of F35 after an up-switch earlier
+    in the same call; now it is an invariant of the loop (`occ_aligned_invariant` below).  What is missing for
+    `nmis = 0` on all runs: (1) up-switch fades and fades with the up-sampling stage −1, where the rescaling floors and
+    the streams are equal only to within one unit of `2⁻³²`; (2) the snap and requests during a fade, which round each
+    stream's `step` separately. -/
 theorem fade_alignment_down_partial (s : St ρ) (occ0 olen mn mx : Int) (hsn : 1 ≤ s.cur.sn) (hd : s.cur.isD = true)
     (hlen : s.cur.len = shiftr occ0 s.cur.sn) (hdiv : occ0 % 2 ^ s.cur.sn.toNat = 0) :
     Doubled (switchStage s (-1) occ0).cur (switchStage s (-1) occ0).fo ∧
@@ -706,15 +763,40 @@ theorem fade_alignment_down_partial (s : St ρ) (occ0 olen mn mx : Int) (hsn : 1
   obtain ⟨k1, k2⟩ := kernels_doubled (switchStage s (-1) occ0) olen mn mx h4 h2 h3 h1
   exact ⟨h1, k1, k2⟩
 
+/-- **`occupancy0` is aligned throughout every `vr_process` call** (the repair of F35 as an invariant): from *any*
+    state, `vr_process` enters its loop with `occupancy0` a whole number of samples of the current stage and the current
+    stream's `len` equal to it in those samples, and every chunk — snap, up-switch (re-aligned by `alignOcc`),
+    down-switch, fade, plain interpolation — keeps that. -/
+theorem occ_aligned_invariant (cfg : Cfg ρ) (s : St ρ) (olen0 : Nat) :
+    OccInv (preLoop cfg s olen0).1 ∧
+    (∀ l : LoopSt ρ, OccInv l → OccInv (chunk cfg olen0 l).1) ∧
+    (∀ (f : Nat) (l : LoopSt ρ), OccInv l → OccInv (loop cfg olen0 f l)) :=
+  ⟨preLoop_OccInv cfg s olen0, fun l h => chunk_OccInv cfg olen0 l h, fun f l h => loop_OccInv cfg olen0 f l h⟩
+
+/-- **Every down-switch between down-sampling stages starts an aligned fade** — in any chunk of any call (the loop
+    invariant supplies the `occupancy0` hypothesis of `fade_alignment_down_partial`, which is what failed before the
+    repair of F35): no mismatch is counted in that chunk and the two streams are exact doubles after it. -/
+theorem down_switch_fade_aligned_in_loop (cfg : Cfg ρ) (olen0 : Nat) (l : LoopSt ρ) (h : OccInv l)
+    (hsw : doesSwitch (chunkStart cfg l.st (olen0 - l.od0)).1 = true)
+    (hdif : stageDif (chunkStart cfg l.st (olen0 - l.od0)).1 = -1) (hsn : 1 ≤ l.st.cur.sn) :
+    (chunk cfg olen0 l).1.nmis = l.nmis ∧ Doubled (chunk cfg olen0 l).1.st.cur (chunk cfg olen0 l).1.st.fo :=
+  chunk_down_switch_aligned cfg olen0 l h hsw hdif hsn
+
+/-- `OccInv` is satisfiable by the loop state of a real run: the first `vr_process` of a fresh 8x engine at ratio 6
+    (stage 2, 8000 frames of input: `occupancy0` a non-zero multiple of 4) -/
+example : OccInv (preLoop wcfg (input (setIoRatio wcfg (init wcfg b8) b6 0) 8000) 100).1 ∧
+    (preLoop wcfg (input (setIoRatio wcfg (init wcfg b8) b6 0) 8000) 100).1.st.cur.sn = 2 ∧
+    (preLoop wcfg (input (setIoRatio wcfg (init wcfg b8) b6 0) 8000) 100).1.occ ≠ 0 :=
+  ⟨preLoop_OccInv _ _ _, by decide +kernel, by decide +kernel⟩
+
 /-- the inductive step on its own: any chunk of a fade between two exactly doubled down-sampling streams -/
 theorem fade_alignment_chunk_partial (s : St ρ) (olen mn mx : Int) (hfade : s.fade ≠ 0) (hc : s.cur.isD = true)
     (hf : s.fo.isD = true) (h : Doubled s.cur s.fo) :
     (kernels s olen mn mx).mis = false ∧ Doubled (kernels s olen mn mx).st.cur (kernels s olen mn mx).st.fo :=
   kernels_doubled s olen mn mx hfade hc hf h
 
-/-- hypotheses of `fade_alignment_down_partial`: a stage-1 stream, `occupancy0 = 1246` input frames is *not* a
-    whole number of stage-1 samples … no: `1246 = 2·623` is; of stage-2 samples it is not (`1246 % 4 = 2`) — the F35
-    situation; with `occupancy0 = 1248` both hold and the pair is doubled, `len` 312 / 624 -/
+/-- hypotheses of `fade_alignment_down_partial`: a stage-2 stream with `occupancy0 = 1248` input frames, a whole number
+    of stage-2 samples (`len` 312; the new stage-1 stream gets 624); `1246` — the value in the F35 witness — is not -/
 example : ∃ s : St Nat, 1 ≤ s.cur.sn ∧ s.cur.isD = true ∧ s.cur.len = shiftr 1248 s.cur.sn ∧
     (1248 : Int) % 2 ^ s.cur.sn.toNat = 0 ∧ (switchStage s (-1) 1248).cur.len = 624 ∧ (1246 : Int) % 2 ^ s.cur.sn.toNat ≠ 0 :=
   ⟨{ cur := { clk := 12345678901, step := 1000000000, ss := -7, sn := 2, isD := true, len := 312 },
@@ -740,11 +822,15 @@ def Goal_frames_full_engine : Prop :=
     ∃ (p q : Int), 0 < q ∧ exactStepOf r (2 ^ 52) * q = p * 2 ^ 52 ∧
       (R.out : Int) * p - N * q ≤ 2 * p ∧ N * q - (R.out : Int) * p ≤ 2 * p
 
-/-- Fade alignment at a constant ratio (no request during the run after the first): there the engine never lags
-    behind the requested ratio by more than one octave, a call never takes an up-switch followed by a down-switch,
-    and `nmis = 0` is expected to hold (no counterexample in the sampled trajectories); not proved. -/
-def Goal_fade_alignment_constant_ratio : Prop :=
-  ∀ (mx r : Nat) (ops : List (Op Nat)), NoRatio ops →
-    (run wcfg { st := init wcfg mx } ([.ratio r 0] ++ ops)).nmis = 0
+/-- The C assertion `odone == odone2` for every run from a fresh engine.  False before the repair of F35
+    (`Historical.pre_fix_not_fade_alignment_for_all_runs`); since the repair no counterexample in the sampled
+    trajectories (the check would report one: the asserts-on build aborts, or the model counts a chunk the real code
+    does not).  Proved: down-switch fades of exactly doubled streams (`fade_alignment_down_partial`,
+    `fade_alignment_chunk_partial`) with the `occupancy0` hypothesis discharged by the loop invariant
+    (`occ_aligned_invariant`).  Open: up-switch fades, fades with stage −1, the snap during a fade (floor / separate
+    rounding: equality only to within one unit of `2⁻³²`, so alignment there rests on the clocks not straddling an
+    input sample within that unit). -/
+def Goal_fade_alignment : Prop :=
+  ∀ (mx : Nat) (ops : List (Op Nat)), (run wcfg { st := init wcfg mx } ops).nmis = 0
 
 end Soxr.Vr.C16
